@@ -330,6 +330,25 @@ def prove_eq0(a):
     return None
 
 
+def is_zero(a):
+    """The form is zero on the current path (by normal form or by bounds); never forks."""
+    d = norm(a)
+    if d.is_const():
+        return d.c == 0
+    return prove_eq0(d) is True
+
+
+def const_of(a):
+    """The integer the form is pinned to on the current path, or None."""
+    d = norm(a)
+    if d.is_const():
+        return d.c
+    lo, hi = bounds(d)
+    if lo is not None and lo == hi:
+        return lo
+    return None
+
+
 def assume_ge0(a):
     a = norm(a)
     if a.is_const():
